@@ -1037,4 +1037,249 @@ theorem reopen_bad_same {s : St} {q : List Bytes} (h : Q s q) (cfg' : Cfg) (hok 
   rw [g2] at b1
   exact absurd b1 (by simp)
 
+/-! ### single-file histories: no `.bad` file -/
+
+/-- while the reader is in the write file (`readFileNum = writeFileNum`) `settle` is one pass without a
+read error: positions in files and the `.bad` files stay -/
+theorem settle_single {t : St} {pre : Bytes} {recs : Nat → List Bytes} (h : Rep t pre recs) (he : t.rf = t.wf) :
+    (DiskQueue.settle t).rf = t.rf ∧ (DiskQueue.settle t).wf = t.wf ∧ (DiskQueue.settle t).fs.bad = t.fs.bad := by
+  obtain ⟨a, b⟩ := settleStep_rep h
+  have hf : (DiskQueue.settleStep t).1 = false := by
+    cases hc : (DiskQueue.settleStep t).1 with
+    | false => rfl
+    | true =>
+      obtain ⟨_, _, _, a4, _⟩ := a hc
+      omega
+  obtain ⟨_, _, b3, b4⟩ := b hf
+  have e : DiskQueue.settle t = (DiskQueue.settleStep t).2 := by
+    unfold DiskQueue.settle
+    have : t.wf + 3 - t.rf = 2 + 1 := by omega
+    rw [this]
+    unfold DiskQueue.settleN
+    rw [hf]
+    simp
+  rw [e]
+  exact ⟨b3, b4, settleStep_bad_frame t hf⟩
+
+theorem put_single {s : St} {q : List Bytes} (h : Q s q) (d : Bytes) (he : s.rf = s.wf)
+    (hr : DiskQueue.needRoll s d = false) :
+    (DiskQueue.put s d).2.rf = (DiskQueue.put s d).2.wf ∧ (DiskQueue.put s d).2.fs.bad = s.fs.bad := by
+  refine ⟨?_, put_bad_same h d (Or.inr hr)⟩
+  obtain ⟨pre, recs, a, b, c⟩ := h
+  have a' : Rep { s with count := s.count + 1 } pre recs := rep_md a s.fs.md s.needSync (s.count + 1)
+  by_cases hv : ValidRec s.cfg d
+  · obtain ⟨w1, recs', w2, _⟩ := writeOne_rep a' d hv
+    have hput : (DiskQueue.put s d).2 = DiskQueue.settle (DiskQueue.writeOne { s with count := s.count + 1 } d).2 := by
+      unfold DiskQueue.put
+      rw [if_neg (by rw [a.live]; simp), if_pos w1]
+    have hvs : DiskQueue.validSize s.cfg d = true := by
+      simp only [DiskQueue.validSize, Bool.and_eq_true, decide_eq_true_eq]; exact hv
+    have hw : DiskQueue.writeOne { s with count := s.count + 1 } d =
+        (true, DiskQueue.appendRec { s with count := s.count + 1 } d) := by
+      unfold DiskQueue.writeOne
+      rw [if_neg (by show ¬ DiskQueue.validSize s.cfg d = false; rw [hvs]; simp)]
+      have : DiskQueue.needRoll { s with count := s.count + 1 } d = false := hr
+      rw [this]
+      simp
+    rw [hw] at w2
+    rw [hput, hw]
+    obtain ⟨x1, x2, _⟩ := settle_single w2 (by show s.rf = s.wf; exact he)
+    rw [x1, x2]
+    exact he
+  · have hput : (DiskQueue.put s d).2 = DiskQueue.settle { s with count := s.count + 1 } := by
+      unfold DiskQueue.put
+      rw [if_neg (by rw [a.live]; simp), writeOne_invalid { s with count := s.count + 1 } d hv]
+      simp
+    rw [hput]
+    obtain ⟨x1, x2, _⟩ := settle_single a' (by show s.rf = s.wf; exact he)
+    rw [x1, x2]
+    exact he
+
+theorem recv_single {s : St} {q : List Bytes} (h : Q s q) (he : s.rf = s.wf) :
+    (DiskQueue.recv s).2.rf = (DiskQueue.recv s).2.wf ∧ (DiskQueue.recv s).2.fs.bad = s.fs.bad := by
+  obtain ⟨pre, recs, a, b, c⟩ := h
+  by_cases hc : DiskQueue.canRead s = true
+  · have hb' := b.2 hc
+    have a' : Rep { s with count := s.count + 1 } pre recs := rep_md a s.fs.md s.needSync (s.count + 1)
+    have hn : s.nrf = s.rf := by
+      obtain ⟨_, _, _, _, b3⟩ := hb'
+      cases b3 with
+      | inl x => exact x.1
+      | inr x => omega
+    obtain ⟨pre', recs', m1, _, m3, _⟩ := moveForward_rep_frame a' hb'
+    obtain ⟨m4, _⟩ := m3 hn
+    have hrecv : (DiskQueue.recv s).2 = DiskQueue.settle (DiskQueue.moveForward { s with count := s.count + 1 }) := by
+      unfold DiskQueue.recv
+      rw [if_pos ⟨a.live, hc⟩]
+    rw [hrecv]
+    rw [m4] at m1 ⊢
+    obtain ⟨x1, x2, x3⟩ := settle_single m1 (by show s.nrf = s.wf; rw [hn]; exact he)
+    rw [x1, x2, x3]
+    exact ⟨by show s.nrf = s.wf; rw [hn]; exact he, rfl⟩
+  · have : DiskQueue.recv s = (none, s) := by
+      unfold DiskQueue.recv
+      rw [if_neg (fun hh => hc hh.2)]
+    rw [this]
+    exact ⟨he, rfl⟩
+
+theorem empty_single {s : St} {q : List Bytes} (h : Q s q) :
+    (DiskQueue.empty s).2.rf = (DiskQueue.empty s).2.wf := by
+  obtain ⟨pre, recs, a, b, _⟩ := h
+  obtain ⟨e1, _⟩ := empty_rep a
+  have hcr : DiskQueue.canRead ({ DiskQueue.deleteAllFiles s with count := 0 } : St) = false := by
+    show (decide (s.wf + 1 < s.wf + 1) || decide (0 < 0)) = false
+    simp
+  have hst : DiskQueue.settle ({ DiskQueue.deleteAllFiles s with count := 0 } : St) = { DiskQueue.deleteAllFiles s with count := 0 } :=
+    settle_at_tail e1 hcr b.1 (by show (0 : Nat) ≠ s.cfg.syncEvery; have := a.cfg.sync; omega)
+  unfold DiskQueue.empty
+  rw [if_neg (by rw [a.live]; simp), hst]
+  rfl
+
+theorem retrieve_closed {s : St} {pre : Bytes} {recs : Nat → List Bytes} (a : Rep s pre recs) (cfg' : Cfg) :
+    DiskQueue.retrieve cfg' (DiskQueue.close s).fs =
+      { cfg := cfg', fs := { s.fs with md := some s.metaNow }, depth := s.depth, rf := s.rf, rp := s.rp, wf := s.wf,
+        wp := s.wp, nrf := s.rf, nrp := s.rp } := by
+  show DiskQueue.retrieve cfg' { s.fs with md := some s.metaNow } = _
+  unfold DiskQueue.retrieve
+  simp only []
+  cases hd : s.fs.dat s.wf with
+  | none =>
+    have e : s.fs.dat s.metaNow.wf = none := hd
+    simp only [e]
+    rfl
+  | some c0 =>
+    have e : s.fs.dat s.metaNow.wf = some c0 := hd
+    have hnlt : ¬ s.metaNow.wp < c0.length := by
+      show ¬ s.wp < c0.length
+      rw [a.wp, content_some hd]; omega
+    simp only [e]
+    rw [if_neg hnlt]
+    rfl
+
+theorem reopen_single {s : St} {q : List Bytes} (h : Q s q) (he : s.rf = s.wf) (cfg' : Cfg) (hok : CfgOk cfg')
+    (hmin : cfg'.minMsgSize = s.cfg.minMsgSize) (hmax : cfg'.maxMsgSize = s.cfg.maxMsgSize) :
+    (openQ cfg' (DiskQueue.close s).fs).rf = (openQ cfg' (DiskQueue.close s).fs).wf := by
+  obtain ⟨pre, recs, a, b, c⟩ := h
+  have a' : Rep { s with fs := { s.fs with md := some s.metaNow } } pre recs := rep_md a (some s.metaNow) s.needSync s.count
+  obtain ⟨r1, _⟩ := reopen_rep a' cfg' hok hmin hmax rfl
+  have hY : DiskQueue.retrieve cfg' ({ s with fs := { s.fs with md := some s.metaNow } } : St).fs =
+      DiskQueue.retrieve cfg' (DiskQueue.close s).fs := rfl
+  rw [hY, retrieve_closed a cfg'] at r1
+  unfold DiskQueue.openQ
+  rw [retrieve_closed a cfg']
+  obtain ⟨x1, x2, _⟩ := settle_single r1 (by show s.rf = s.wf; exact he)
+  rw [x1, x2]
+  exact he
+
+/-- the backend puts of a `flush`, none of which rolls the writer -/
+def flushNoRoll : St → List Bytes → Prop
+  | _, [] => True
+  | d, b :: rest => DiskQueue.needRoll d b = false ∧ flushNoRoll (DiskQueue.put d b).2 rest
+
+/-- no backend `Put` of the history rolls the writer to a new data file (the records queued on disk since the
+channel was created / last emptied fit into ONE file of `--max-bytes-per-file`, 100 MB by default) -/
+def NoRoll (cfg : Cfg) : Run → List Op → Prop
+  | _, [] => True
+  | r, .put b :: ops =>
+    (r.q.mem.length < r.q.memCap ∨ DiskQueue.needRoll r.q.dq b = false) ∧ NoRoll cfg (stepRun cfg r (.put b)) ops
+  | r, .restart :: ops => flushNoRoll r.q.dq r.q.mem ∧ NoRoll cfg (stepRun cfg r .restart) ops
+  | r, o :: ops => NoRoll cfg (stepRun cfg r o) ops
+
+theorem flushInto_single (l : List Bytes) : ∀ (d : St) (disk : List Bytes), Q d disk → d.rf = d.wf → flushNoRoll d l →
+    (flushInto d l).1.rf = (flushInto d l).1.wf ∧ (flushInto d l).1.fs.bad = d.fs.bad := by
+  induction l with
+  | nil => intro d disk _ he _; exact ⟨he, rfl⟩
+  | cons b l ih =>
+    intro d disk h he hn
+    obtain ⟨n1, n2⟩ := hn
+    obtain ⟨p1, p2⟩ := put_single h b he n1
+    have hq : ∃ disk', Q (DiskQueue.put d b).2 disk' := by
+      by_cases hv : ValidRec d.cfg b
+      · exact ⟨_, (put_ok_Q h b hv).2⟩
+      · exact ⟨_, (put_invalid_Q h b hv).2⟩
+    obtain ⟨disk', hq'⟩ := hq
+    obtain ⟨i1, i2⟩ := ih _ disk' hq' p1 n2
+    unfold flushInto
+    split
+    · exact ⟨i1, by rw [i2, p2]⟩
+    · exact ⟨i1, by rw [i2, p2]⟩
+
+/-- SUFFICIENT CONDITION for "no `.bad` file": a history from a fresh data path in which the writer never rolls
+keeps the reader in the write file and creates no `.bad` file -/
+theorem single_file_step {cfg : Cfg} (hok : CfgOk cfg) {memCap : Nat} {r : Run} {disk gone : List Bytes}
+    (h : Ledger cfg memCap r disk gone) (he : r.q.dq.rf = r.q.dq.wf) (o : Op) (ops : List Op) (hn : NoRoll cfg r (o :: ops)) :
+    (stepRun cfg r o).q.dq.rf = (stepRun cfg r o).q.dq.wf ∧ (stepRun cfg r o).q.dq.fs.bad = r.q.dq.fs.bad ∧
+      NoRoll cfg (stepRun cfg r o) ops := by
+  cases o with
+  | put b =>
+    obtain ⟨n1, n2⟩ := hn
+    refine ⟨?_, ?_, n2⟩
+    · rw [stepRun_put]
+      by_cases hm : r.q.mem.length < r.q.memCap
+      · rw [put_mem r.q b hm]
+        simp only [true_or, if_true]
+        exact he
+      · have hr : DiskQueue.needRoll r.q.dq b = false := by
+          cases n1 with
+          | inl x => exact absurd x hm
+          | inr x => exact x
+        have := (put_single h.inv b he hr).1
+        rw [put_full r.q b hm]
+        split <;> exact this
+    · rw [stepRun_put]
+      by_cases hm : r.q.mem.length < r.q.memCap
+      · rw [put_mem r.q b hm]
+        simp only [true_or, if_true]
+      · have hr : DiskQueue.needRoll r.q.dq b = false := by
+          cases n1 with
+          | inl x => exact absurd x hm
+          | inr x => exact x
+        have := (put_single h.inv b he hr).2
+        rw [put_full r.q b hm]
+        split <;> exact this
+  | takeMem =>
+    have hdq : (stepRun cfg r .takeMem).q.dq = r.q.dq := by
+      rw [stepRun_takeMem]
+      cases hmem : r.q.mem with
+      | nil => rw [takeMem_nil r.q hmem]
+      | cons b rest => rw [takeMem_cons r.q b rest hmem]
+    rw [hdq]
+    exact ⟨he, rfl, hn⟩
+  | takeDisk =>
+    obtain ⟨x1, x2⟩ := recv_single h.inv he
+    refine ⟨?_, ?_, hn⟩
+    · rw [stepRun_takeDisk]
+      split <;> exact x1
+    · rw [stepRun_takeDisk]
+      split <;> exact x2
+  | restart =>
+    obtain ⟨n1, n2⟩ := hn
+    obtain ⟨f1, _, f3⟩ := flushInto_spec r.q.mem r.q.dq disk h.inv
+    obtain ⟨s1, s2⟩ := flushInto_single r.q.mem r.q.dq disk h.inv he n1
+    refine ⟨?_, ?_, n2⟩
+    · rw [stepRun_restart]
+      exact reopen_single f1 s1 cfg hok (by rw [f3, h.cfg]) (by rw [f3, h.cfg])
+    · rw [stepRun_restart]
+      show (openQ cfg (DiskQueue.close (flushInto r.q.dq r.q.mem).1).fs).fs.bad = _
+      rw [reopen_bad_same f1 cfg hok (by rw [f3, h.cfg]) (by rw [f3, h.cfg]), s2]
+  | empty =>
+    refine ⟨?_, ?_, hn⟩
+    · rw [stepRun_empty]
+      exact empty_single h.inv
+    · rw [stepRun_empty]
+      exact empty_bad_same h.inv
+
+theorem single_file_foldl (cfg : Cfg) (hok : CfgOk cfg) (memCap : Nat) (ops : List Op) (r : Run) (disk gone : List Bytes)
+    (h : Ledger cfg memCap r disk gone) (he : r.q.dq.rf = r.q.dq.wf) (hn : NoRoll cfg r ops) :
+    (ops.foldl (stepRun cfg) r).q.dq.fs.bad = r.q.dq.fs.bad ∧
+      (ops.foldl (stepRun cfg) r).q.dq.rf = (ops.foldl (stepRun cfg) r).q.dq.wf := by
+  induction ops generalizing r disk gone with
+  | nil => exact ⟨rfl, he⟩
+  | cons o ops ih =>
+    obtain ⟨d1, g1, h1, _⟩ := ledger_step hok h o
+    obtain ⟨x1, x2, x3⟩ := single_file_step hok h he o ops hn
+    obtain ⟨i1, i2⟩ := ih _ d1 g1 h1 x1 x3
+    simp only [List.foldl_cons]
+    exact ⟨by rw [i1, x2], i2⟩
+
 end Nsq.Proofs.BackedQueue
